@@ -9,7 +9,8 @@
 From Coq Require Import List Arith Bool ZArith Lia.
 From P9V Require Import Refs.Model Refs.PathFS Refs.RefProofs Refs.RefStep Refs.FenceProofs Refs.TreeInv Refs.NotifiedDeep
   Refs.CoherentTree Refs.CoherentDefs Refs.CoherentFs Refs.CoherentFrame Refs.CoherentStep Refs.CoherentTreeHyp Refs.CoherentUnlink
-  Refs.CoherentRemove Refs.CoherentRenFs Refs.CoherentRenFrame Refs.CoherentRenLoop Refs.CoherentRenDeep Refs.CoherentRenGlue.
+  Refs.CoherentRemove Refs.CoherentRenFs Refs.CoherentRenFrame Refs.CoherentRenLoop Refs.CoherentRenDeep Refs.CoherentRenGlue
+  Refs.CoherentPanic Refs.CoherentPanicLoop.
 Import ListNotations.
 
 Lemma prefix_dec (a p : list nat) : prefix a p \/ ~ prefix a p.
@@ -948,6 +949,32 @@ Proof.
   unfold rcalls at 1. rewrite C1, filter_app, tells_renamed. fold (rcalls (SC c)). rewrite (A_log _ _ _ A).
   unfold rcalls at 1. unfold calls, SA. rewrite log_mcd. fold (calls pfs s1). fold (rcalls s1). rewrite <- app_assoc. reflexivity.
 Qed.
+Lemma down_walk (S : st) : rkeys S -> forall k n m, down pfs S n m k -> exists tau, walk (nch S) n tau = Some m.
+Proof.
+  intros K k. induction k as [|k IH]; intros n m; cbn [down].
+  - intros ->. exists []. reflexivity.
+  - intros (y & c1 & Hin & Hd). destruct (IH _ _ Hd) as (tau & W). exists (y :: tau). cbn [walk].
+    assert (E : nch S n y = Some c1) by (unfold nch; apply (In_alookup Nat.eqb Nat.eqb_spec); [apply (proj2 (K n)) | exact Hin]).
+    rewrite E. exact W.
+Qed.
+
+Lemma d_np : NPI (SC c) -> s_panic pfs (SC c) = false -> NPI SF /\ s_panic pfs SF = false.
+Proof.
+  intros NC PC.
+  assert (Cond : forall e, In e (below pfs (node_fuel pfs (SC c)) (SC c) c) -> liveb pfs (SC c) (fst e) = true -> fr_parent (gref (SC c) (fst e)) <> None).
+  { intros [q nm] He _. cbn [fst]. apply in_below in He. destruct He as (k & m & _ & Hd & Hin).
+    destruct (down_walk (SC c) (W_keys _ _ WC (G_keys _ _ G)) k c m Hd) as (tau & Wt).
+    assert (Wm : node_at (SC c) (Pc ++ tau) = Some m). { unfold node_at. rewrite walk_app. fold (node_at (SC c) Pc). rewrite c_pc. exact Wt. }
+    destruct (c_notft tau m Wm) as (N1 & N2). destruct c_tree as (NTC & _).
+    assert (Hm : m < nlen s). { rewrite <- (W_nlen _ _ WC). eapply node_at_bound; eauto. }
+    destruct (c_reg_s m q nm N1 N2 Hm Hin) as (_ & _ & _ & p & Ep & _).
+    destruct (A_par _ _ _ A q) as [E|(_ & E)]; [|congruence]. rewrite E. destruct r_sa as (GA & _). rewrite GA. congruence. }
+  destruct (notify_name_change_tp pfs pfs_step (node_fuel pfs (SC c)) c ([], SC c) Cond) as (_ & PD). cbn [snd] in PD. fold hsD in PD. fold SD in PD.
+  destruct d_f2 as (Nd & Rl & _).
+  assert (PfD : pf (SC c) SD) by (apply pf_same_nodes; auto; unfold rlen; lia).
+  pose proof (pf_release_all (fst hsD) SD) as PfF. fold SF in PfF.
+  split; [apply (P_inv _ _ PfF), (P_inv _ _ PfD NC) | rewrite (P_np _ _ PfF (P_inv _ _ PfD NC)), PD; exact PC].
+Qed.
 End SomeCase.
 
 (** renameChildTo as a whole *)
@@ -967,6 +994,58 @@ Proof.
   change (notify_name_change pfs pfs_step (node_fuel pfs (SC c)) c ([], SC c)) with (hsD c).
   pose proof (d_good c T' Ec A IC) as GF. unfold SF, SD in GF. destruct (hsD c) as [held s4]. exact GF.
 Qed.
+(** no run-time panic in renameChildTo *)
+Lemma r_nopanic : s_panic pfs s = false ->
+  NPI (rename_child_to pfs pfs_step fnode old t new s1) /\ s_panic pfs (rename_child_to pfs pfs_step fnode old t new s1) = false.
+Proof.
+  intros P0. pose proof (npi_of_tree s T) as N0.
+  assert (N1 : NPI s1 /\ s_panic pfs s1 = false).
+  { destruct E1 as (R & Nd & _ & _ & _ & Pp). assert (X : pf s s1) by (apply pf_same_nodes; auto; unfold rlen; rewrite R; lia).
+    split; [apply (P_inv _ _ X N0) | rewrite (P_np _ _ X N0); exact P0]. }
+  destruct N1 as (N1 & P1).
+  assert (NA : NPI SA /\ s_panic pfs SA = false).
+  { pose proof (pf_mcd tn new s1) as X. fold SA in X. split; [apply (P_inv _ _ X N1) | rewrite (P_np _ _ X N1); exact P1]. }
+  destruct NA as (NA & PA).
+  destruct r_sa as (GA & _ & _ & LA & _ & _ & KA & (IA & HcA) & _).
+  assert (RLA : rlen SA = rlen s).
+  { unfold rlen. destruct (mcd_spec tn new s1 r_tn1) as ((_ & R' & _) & _). fold SA in R'. rewrite R'. destruct E1 as (R & _). rewrite R. reflexivity. }
+  assert (PL0 : PL fnode tn t SA ml).
+  { constructor; auto; [rewrite GA; reflexivity|].
+    intros q Hq. destruct (r_ml q Hq) as (Lq & Lvq & _ & _ & p & Ep & Lp & Np).
+    split; [rewrite RLA; exact Lq|]. split; [rewrite GA, Ep; discriminate|].
+    intros n Hn. destruct (alookup Nat.eqb q (pn_names (gnode SA n))) as [nm|] eqn:E; auto. exfalso.
+    assert (X : alookup Nat.eqb q (pn_names (gnode s1 n)) <> None) by (apply (nsub_mcd tn new s1); fold SA; congruence).
+    rewrite r_gn1 in X. destruct (alookup Nat.eqb q (pn_names (gnode s n))) as [nm'|] eqn:E'; [|congruence].
+    assert (Hnl : n < nlen s).
+    { destruct (Nat.lt_ge_cases n (nlen s)) as [L|L]; auto. unfold get_node in E'. rewrite nth_overflow in E' by exact L. discriminate. }
+    destruct (T_reg pfs s T n q nm' Hnl E') as (_ & _ & p' & Ep' & _ & Np' & _). congruence. }
+  unfold rename_child_to. rewrite r_gr1. fold tn. fold SA. rewrite r_rwn.
+  assert (NB1 : NPI SB1 /\ s_panic pfs SB1 = false).
+  { unfold SB1, lp. destruct (alookup Nat.eqb old (pn_refs (gnode SA fnode))) as [m|] eqn:E; [|cbn [snd]; auto].
+    assert (Eml : ml = m) by (unfold ml; rewrite E; reflexivity).
+    apply (loop_np fnode tn old t new m [] SA); [rewrite <- Eml; exact PL0 | rewrite <- Eml; apply r_ml_nodup]. }
+  destruct NB1 as (NB1 & PB1).
+  assert (NB : NPI SB /\ s_panic pfs SB = false).
+  { assert (X : pf SB1 SB).
+    { unfold SB. eapply pf_trans; [|apply pf_release_all]. unfold SB2.
+      apply (pf_set_node_same fnode (pn_with_nodes (gnode SB1 fnode) (adel Nat.eqb old (pn_nodes (gnode SB1 fnode)))) SB1); reflexivity. }
+    split; [apply (P_inv _ _ X NB1) | rewrite (P_np _ _ X NB1); exact PB1]. }
+  destruct NB as (NB & PB).
+  destruct orig as [c|] eqn:Oc; [|split; [exact NB | exact PB]].
+  destruct (r_atC c Oc) as (Ec & Eadd & T' & A). rewrite Eadd.
+  assert (NC : NPI (SC c) /\ s_panic pfs (SC c) = false).
+  { assert (X : pf SB (SC c)).
+    { unfold SC. apply (pf_set_node_same tn (pn_with_nodes (gnode SB tn) (aset Nat.eqb new c (pn_nodes (gnode SB tn)))) SB); reflexivity. }
+    split; [apply (P_inv _ _ X NB) | rewrite (P_np _ _ X NB); exact PB]. }
+  destruct NC as (NC & PC). rewrite PC.
+  pose proof (remove_with_name_ok pfs pfs_step fnode old t new SA d IA HcA) as RW. cbv zeta in RW. rewrite r_rwn in RW. cbn [snd] in RW.
+  destruct RW as (IB & _).
+  pose proof (sc_add_path_node_for pfs tn new c SB) as SCC. rewrite Eadd in SCC.
+  destruct (sc_ok pfs SB (SC c) d SCC IB) as (IC & _).
+  change (notify_name_change pfs pfs_step (node_fuel pfs (SC c)) c ([], SC c)) with (hsD c).
+  pose proof (d_np c T' Ec A NC PC) as PF. unfold SF, SD in PF. destruct (hsD c) as [held s4]. exact PF.
+Qed.
+
 (** the Renamed calls of renameChildTo *)
 Definition deep_calls : list bcall :=
   match orig with
@@ -1071,4 +1150,101 @@ Proof.
   cbv zeta in RO.
   destruct (bcall_ pfs pfs_step (BRenameAt (fr_file (gref s p)) old (fr_file (gref s t)) nm) s) as [a s1]. cbn [fst snd] in RO.
   destruct a; cbn [snd]; exact RO.
+Qed.
+
+(** ---- no run-time panic in Trenameat / Trename ---- *)
+Lemma rename_np (s : st) d g xr t old new :
+  RInvD s d -> TH s -> Good s g -> 0 < hc s t ->
+  xr < rlen s -> live s xr -> tref s xr -> nonf s xr -> tref s t -> nonf s t ->
+  (fr_node (gref s xr), old) <> (fr_node (gref s t), new) ->
+  NPI s -> s_panic pfs s = false ->
+  let r := bcall_ pfs pfs_step (BRenameAt (fr_file (gref s xr)) old (fr_file (gref s t)) new) s in
+  let res := match fst r with
+             | AErr e => snd r
+             | _ => rename_child_to pfs pfs_step (fr_node (gref s xr)) old t new (snd r)
+             end in
+  NPI res /\ s_panic pfs res = false.
+Proof.
+  intros Inv TT G Hc Lx Lvx Tx Nfx Tt Nft NE N0 P0. cbv zeta.
+  destruct (bcall_be (BRenameAt (fr_file (gref s xr)) old (fr_file (gref s t)) new) s) as (E1 & E2 & E3 & E4 & E5 & E6 & E7 & E8).
+  destruct (held_live s d t Inv Hc) as (Lt & Lvt).
+  pose proof (pfs_step_renameat (s_be pfs s) (fr_file (gref s xr)) old (fr_file (gref s t)) new (G_fs _ _ G)) as PR. cbv zeta in PR.
+  rewrite <- E1, <- E2 in PR.
+  pose proof (pf_bcall (BRenameAt (fr_file (gref s xr)) old (fr_file (gref s t)) new) s) as PB.
+  destruct (bcall_ pfs pfs_step (BRenameAt (fr_file (gref s xr)) old (fr_file (gref s t)) new) s) as [a s1]. cbn [fst snd] in *.
+  destruct PR as [((e & Ea) & FS) | [(FS & R12 & Eon & RS) | (Ea & dd1 & dd2 & xx & M)]].
+  - rewrite Ea. split; [apply (P_inv _ _ PB N0) | rewrite (P_np _ _ PB N0); exact P0].
+  - exfalso. apply NE. subst new. f_equal.
+    fold (fpath s xr) (fpath s t) in R12, RS.
+    destruct (resolve (s_be pfs s) (fpath s xr)) as [i|] eqn:R1; [|congruence]. symmetry in R12.
+    rewrite resolve_walk in R1, R12.
+    pose proof (walk_inj (entry (s_be pfs s)) root_ino (F_up _ (G_fs _ _ G)) (F_noroot _ (G_fs _ _ G)) _ _ _ R1 R12) as EP.
+    pose proof (G_node _ _ G xr Lx Lvx Tx Nfx) as W1. pose proof (G_node _ _ G t Lt Lvt Tt Nft) as W2. rewrite EP in W1. congruence.
+  - rewrite Ea. apply (r_nopanic s d g xr t old new s1 dd1 dd2 xx Inv TT G Hc); auto. repeat split; auto.
+Qed.
+
+Lemma np_renameat c fid oldnm fid2 newnm : np [] (fun s => snd (do_renameat pfs pfs_step c fid oldnm fid2 newnm s)).
+Proof.
+  unfold do_renameat. apply with_fid_np. intros r. apply with_fid_np. intros t s d g Inv HP TT G N0 P0. cbv zeta.
+  assert (Hr : 0 < hc s r) by (apply HP; right; left; reflexivity).
+  assert (Ht : 0 < hc s t) by (apply HP; left; reflexivity).
+  destruct (held_live s d r Inv Hr) as (Lr & Lvr). destruct (held_live s d t Inv Ht) as (Lt & Lvt).
+  destruct (is_deleted pfs s r) eqn:Dr; cbn [orb]; [auto|].
+  destruct (is_dir (fr_mode (gref s r))) eqn:Mr; cbn [negb orb]; [|auto].
+  destruct (is_deleted pfs s t) eqn:Dt; cbn [orb]; [auto|].
+  destruct (is_dir (fr_mode (gref s t))) eqn:Mt; cbn [negb orb]; [|auto].
+  destruct (fr_opened (gref s r)); [auto|].
+  destruct ((fr_node (gref s r) =? fr_node (gref s t)) && (oldnm =? newnm)) eqn:Same; [auto|].
+  pose proof (rename_np s d g r t oldnm newnm Inv TT G Ht Lr Lvr (dir_tref s g r G Lr Mr) Dr (dir_tref s g t G Lt Mt) Dt (pair_ne _ _ _ _ Same) N0 P0) as RO.
+  cbv zeta in RO.
+  destruct (bcall_ pfs pfs_step (BRenameAt (fr_file (gref s r)) oldnm (fr_file (gref s t)) newnm) s) as [a s1]. cbn [fst snd] in RO.
+  destruct a; cbn [snd]; exact RO.
+Qed.
+
+Lemma np_rename c fid dirfid nm : np [] (fun s => snd (do_rename pfs pfs_step c fid dirfid nm s)).
+Proof.
+  unfold do_rename. apply with_fid_np. intros r. apply with_fid_np. intros t s d g Inv HP TT G N0 P0. cbv zeta.
+  assert (Hr : 0 < hc s r) by (apply HP; right; left; reflexivity).
+  assert (Ht : 0 < hc s t) by (apply HP; left; reflexivity).
+  destruct (held_live s d r Inv Hr) as (Lr & Lvr). destruct (held_live s d t Inv Ht) as (Lt & Lvt).
+  destruct (fr_parent (gref s r)) as [p|] eqn:Ep; [|auto].
+  destruct (is_deleted pfs s r) eqn:Dr; cbn [orb]; [auto|].
+  destruct (is_deleted pfs s t) eqn:Dt; cbn [orb]; [auto|].
+  destruct (is_dir (fr_mode (gref s t))) eqn:Mt; cbn [negb]; [|auto].
+  pose proof (G_pnonf _ _ G r p Lr Lvr Dr Ep) as Dp. unfold nonf in Dp. rewrite Dp.
+  destruct (T_live pfs s TT r p Lr Lvr Ep Dr) as (old & Rg). unfold name_for. fold (gnode s (fr_node (gref s p))).
+  unfold registered in Rg. rewrite Rg.
+  destruct ((fr_node (gref s p) =? fr_node (gref s t)) && (old =? nm)) eqn:Same; [auto|].
+  destruct (G_parent _ _ G r p Lr Ep) as (_ & Tp & Lp).
+  assert (Lvp : live s p). { destruct (inv_live pfs s d p Inv (C_parent pfs s r p Lr Lvr Ep)) as (_ & X). exact X. }
+  pose proof (rename_np s d g p t old nm Inv TT G Ht Lp Lvp Tp Dp (dir_tref s g t G Lt Mt) Dt (pair_ne _ _ _ _ Same) N0 P0) as RO.
+  cbv zeta in RO.
+  destruct (bcall_ pfs pfs_step (BRenameAt (fr_file (gref s p)) old (fr_file (gref s t)) nm) s) as [a s1]. cbn [fst snd] in RO.
+  destruct a; cbn [snd]; exact RO.
+Qed.
+
+(** every request *)
+Theorem step_np o : np [] (fun s => snd (step pfs pfs_step o s)).
+Proof.
+  destruct o; cbn [step].
+  - apply np_of_pf; intros; apply pf_attach.
+  - apply np_walk_op.
+  - apply np_of_pf; intros; apply pf_clunk.
+  - apply np_remove.
+  - apply np_of_pf; intros; apply pf_open.
+  - apply np_of_pf; intros; apply pf_create.
+  - apply np_of_pf; intros; apply pf_mk.
+  - apply np_of_pf; intros; apply pf_link.
+  - apply np_of_pf; intros; apply pf_getattr.
+  - apply np_of_pf; intros; apply pf_use.
+  - apply np_of_pf; intros; apply pf_io.
+  - apply np_of_pf; intros; apply pf_setattr.
+  - apply np_of_pf; intros; apply pf_readdir.
+  - apply np_of_pf; intros; apply pf_readlink.
+  - apply np_of_pf; intros; apply pf_unlinkat.
+  - apply np_rename.
+  - apply np_renameat.
+  - apply np_of_pf; intros; apply pf_xattrwalk.
+  - apply np_of_pf; intros; apply pf_xattrcreate.
+  - apply np_of_pf; intros; apply pf_stop.
 Qed.
